@@ -7,6 +7,15 @@ VERIF = os.path.dirname(os.path.dirname(os.path.abspath(__file__)))
 
 # id -> (category, technique, level text, level note, design ref)
 CHECKS = {
+    'C01': ('exploration',
+            'bounded-exhaustive program enumeration x exhaustive environment-tape exploration, differential against the unconverted function',
+            'Every program of 8 focused statement menus up to the size bound (quick: 17.8k programs) is converted under two '
+            'configurations and executed on every environment tape (all branch/iteration decision sequences up to the cap); '
+            'return value / exception type, ordered effect log (calls, iterator consumption, context managers) and post-state '
+            'must equal the unconverted function. Violations are delta-reduced; the signature is the reduced witness.',
+            'Bounded: program size, tape cap 6/7, <=3/4 non-default answers; conditions are environment oracles; data values '
+            'limited to the history-encoding integers of the generator; hash seeds limited to those run.',
+            'DESIGN.md 2/C01'),
     'C20': ('exploration',
             'complete enumeration of the finite option space (1024 values, 1024^2 pairs) against a reference tuple model',
             'The whole configuration space is enumerated (exhaustive: true): AST round trip, eq/hash over all pairs, '
